@@ -200,7 +200,34 @@ impl<C: Config, Q: Query> Snapshot<C, Q> {
         let node_info = self.node_info().await.unwrap();
 
         let tfcs = node_info.transitive_firewall_callees();
-        let tfcs = tfcs.iter().copied().collect::<Vec<_>>();
+        let this = *self.query_id();
+
+        // Only genuine firewalls are repaired ahead of the query. A member
+        // that carries itself in its own set is a query whose last run
+        // ended inside a strongly connected component (possibly this very
+        // query): the members of a cycle hold each other in their sets, so
+        // repairing them from here would chase the cycle forever. They are
+        // re-executed by the ordinary recursion instead, which detects
+        // cycles; nothing above them trusts a clean edge until then.
+        let mut filtered = Vec::with_capacity(tfcs.len());
+        for tfc in tfcs.iter().copied() {
+            if tfc == this
+                || !self.engine().get_query_kind(&tfc).await.is_firewall()
+            {
+                continue;
+            }
+
+            let ended_in_scc = self
+                .engine()
+                .try_get_node_info(&tfc)
+                .await
+                .is_some_and(|x| x.transitive_firewall_callees().contains(&tfc));
+
+            if !ended_in_scc {
+                filtered.push(tfc);
+            }
+        }
+        let tfcs = filtered;
 
         let chunk_size = std::cmp::max(
             tfcs.len()
@@ -479,6 +506,16 @@ impl<C: Config, Q: Query> Snapshot<C, Q> {
         let forward_edges = self.forward_edge_order().await.unwrap();
         let forward_edge_observation =
             self.forward_edge_observation().await.unwrap();
+
+        // The last run ended inside a strongly connected component (it
+        // recorded its callees but no observation): its value is a cycle
+        // default, there is nothing to verify it against.
+        if forward_edges
+            .iter_all_callees()
+            .any(|callee| !forward_edge_observation.0.contains_key(&callee))
+        {
+            return RepairDecision::Recompute;
+        }
 
         for dep in forward_edges.0.iter() {
             match dep {
